@@ -26,8 +26,10 @@
 #define PAGE   4096UL
 #define DATA   0x10000UL
 #define MAXBLK 4
-#define MAXARG 12
+#define OUT(...) fprintf(res, __VA_ARGS__)
+#define MAXARG 16
 
+static FILE *res;    /* result channel (a dup of the original stdout) */
 static uint8_t *base;
 static struct { char mode; size_t size; uint8_t *start; } blk[MAXBLK];
 static int nblk;
@@ -41,18 +43,78 @@ static void on_fault(int s, siginfo_t *si, void *u) { (void)u; fault_sig = s; fa
 
 static int hexval(int c) { return c <= '9' ? c - '0' : (c | 32) - 'a' + 10; }
 
-typedef struct { char tag; uint64_t u; } arg_t;
-static arg_t args[MAXARG]; static int nargs;
+typedef struct { char tag; uint64_t u; double d; long double L; } arg_t;
+static arg_t args[MAXARG]; static int nargs; static int vstart; /* index of the first variadic argument */
 #define PTR(i) ((void *)(uintptr_t)args[i].u)
 #define U(i) ((size_t)args[i].u)
 #define SI(i) ((int)(int64_t)args[i].u)
 
 static void print_ptr(const void *p) {
-    if (!p) { printf("N"); return; }
+    if (!p) { OUT("N"); return; }
     for (int i = 0; i < nblk; i++) {
-        if ((uint8_t *)p >= blk[i].start && (uint8_t *)p <= blk[i].start + blk[i].size) { printf("P%d:%ld", i, (long)((uint8_t *)p - blk[i].start)); return; }
+        if ((uint8_t *)p >= blk[i].start && (uint8_t *)p <= blk[i].start + blk[i].size) { OUT("P%d:%ld", i, (long)((uint8_t *)p - blk[i].start)); return; }
     }
-    printf("X");
+    OUT("X");
+}
+
+/* C12: snapshot of the library's writable static objects around every call (ranges from `nm` on this executable) */
+#define MAXSTAT 512
+static struct { char name[96]; uint8_t *addr; size_t size; uint8_t *copy; } stat_[MAXSTAT];
+static int nstat;
+static void load_statics(const char *path) {
+    FILE *f = fopen(path, "r"); if (!f) return;
+    char nm[96]; unsigned long a, sz;
+    while (nstat < MAXSTAT && fscanf(f, "%95s %lx %lx", nm, &a, &sz) == 3) {
+        strcpy(stat_[nstat].name, nm); stat_[nstat].addr = (uint8_t *)a; stat_[nstat].size = sz; stat_[nstat].copy = malloc(sz); nstat++;
+    }
+    fclose(f);
+}
+static void snap_statics(void) { for (int i = 0; i < nstat; i++) memcpy(stat_[i].copy, stat_[i].addr, stat_[i].size); }
+static void diff_statics(void) {
+    int any = 0;
+    for (int i = 0; i < nstat; i++) if (memcmp(stat_[i].copy, stat_[i].addr, stat_[i].size)) { OUT("%s%s", any ? "," : " st=", stat_[i].name); any = 1; }
+}
+
+/* ---- variadic calls: every variadic argument belongs to one of three ABI classes ---- */
+#define A_I(k) (args[vstart + (k)].u)
+#define A_D(k) (args[vstart + (k)].d)
+#define A_L(k) (args[vstart + (k)].L)
+static int vcls(int k) { if (vstart + k >= nargs) return 0; char t = args[vstart + k].tag; return t == 'F' ? 1 : t == 'G' ? 2 : 0; }
+#define VSWITCH(M) do { switch (vcls(0) * 9 + vcls(1) * 3 + vcls(2)) { \
+  case 0: M(I,I,I); break; case 1: M(I,I,D); break; case 2: M(I,I,L); break; case 3: M(I,D,I); break; case 4: M(I,D,D); break; case 5: M(I,D,L); break; \
+  case 6: M(I,L,I); break; case 7: M(I,L,D); break; case 8: M(I,L,L); break; case 9: M(D,I,I); break; case 10: M(D,I,D); break; case 11: M(D,I,L); break; \
+  case 12: M(D,D,I); break; case 13: M(D,D,D); break; case 14: M(D,D,L); break; case 15: M(D,L,I); break; case 16: M(D,L,D); break; case 17: M(D,L,L); break; \
+  case 18: M(L,I,I); break; case 19: M(L,I,D); break; case 20: M(L,I,L); break; case 21: M(L,D,I); break; case 22: M(L,D,D); break; case 23: M(L,D,L); break; \
+  case 24: M(L,L,I); break; case 25: M(L,L,D); break; default: M(L,L,L); break; } } while (0)
+#include <stdarg.h>
+#include <unistd.h>
+#include <time.h>
+static int tr_vsprintf(char *d, size_t dm, size_t bos, const char *fmt, ...) { va_list ap; va_start(ap, fmt); int r = _vsprintf_s_chk(d, dm, bos, fmt, ap); va_end(ap); return r; }
+static int tr_vsnprintf(char *d, size_t dm, size_t bos, const char *fmt, ...) { va_list ap; va_start(ap, fmt); int r = _vsnprintf_s_chk(d, dm, bos, fmt, ap); va_end(ap); return r; }
+static int tr_vfprintf(FILE *f, const char *fmt, ...) { va_list ap; va_start(ap, fmt); int r = vfprintf_s(f, fmt, ap); va_end(ap); return r; }
+static int tr_vprintf(const char *fmt, ...) { va_list ap; va_start(ap, fmt); int r = vprintf_s(fmt, ap); va_end(ap); return r; }
+static int tr_vswprintf(wchar_t *d, size_t dm, size_t bos, const wchar_t *fmt, ...) { va_list ap; va_start(ap, fmt); int r = _vswprintf_s_chk(d, dm, bos, fmt, ap); va_end(ap); return r; }
+static int tr_vsnwprintf(wchar_t *d, size_t dm, size_t bos, const wchar_t *fmt, ...) { va_list ap; va_start(ap, fmt); int r = _vsnwprintf_s_chk(d, dm, bos, fmt, ap); va_end(ap); return r; }
+static int tr_vfwprintf(FILE *f, const wchar_t *fmt, ...) { va_list ap; va_start(ap, fmt); int r = vfwprintf_s(f, fmt, ap); va_end(ap); return r; }
+static int tr_vwprintf(const wchar_t *fmt, ...) { va_list ap; va_start(ap, fmt); int r = vwprintf_s(fmt, ap); va_end(ap); return r; }
+static int tr_vsscanf(const char *b, const char *fmt, ...) { va_list ap; va_start(ap, fmt); int r = vsscanf_s(b, fmt, ap); va_end(ap); return r; }
+static int tr_vfscanf(FILE *f, const char *fmt, ...) { va_list ap; va_start(ap, fmt); int r = vfscanf_s(f, fmt, ap); va_end(ap); return r; }
+static int tr_vscanf(const char *fmt, ...) { va_list ap; va_start(ap, fmt); int r = vscanf_s(fmt, ap); va_end(ap); return r; }
+static int tr_vswscanf(const wchar_t *b, const wchar_t *fmt, ...) { va_list ap; va_start(ap, fmt); int r = vswscanf_s(b, fmt, ap); va_end(ap); return r; }
+static int tr_vfwscanf(FILE *f, const wchar_t *fmt, ...) { va_list ap; va_start(ap, fmt); int r = vfwscanf_s(f, fmt, ap); va_end(ap); return r; }
+static int tr_vwscanf(const wchar_t *fmt, ...) { va_list ap; va_start(ap, fmt); int r = vwscanf_s(fmt, ap); va_end(ap); return r; }
+/* captured stream output of the current case */
+static char cap[1 << 16]; static size_t caplen; static int have_cap;
+/* comparator for qsort_s/bsearch_s: unsigned bytewise over the element size in *ctx, checks its pointers */
+static struct { uint8_t *base; size_t nmemb, size; int bad; long calls; void *key; } cmpctx;
+static int cmp_checked(const void *a, const void *b, void *ctx) {
+    cmpctx.calls++;
+    if (ctx != &cmpctx) cmpctx.bad |= 1;
+    const uint8_t *pa = a, *pb = b;
+    int a_ok = (pa == cmpctx.key) || (pa >= cmpctx.base && pa < cmpctx.base + cmpctx.nmemb * cmpctx.size && (size_t)(pa - cmpctx.base) % cmpctx.size == 0);
+    int b_ok = (pb == cmpctx.key) || (pb >= cmpctx.base && pb < cmpctx.base + cmpctx.nmemb * cmpctx.size && (size_t)(pb - cmpctx.base) % cmpctx.size == 0);
+    if (!a_ok || !b_ok) { cmpctx.bad |= 2; return 0; }
+    return memcmp(pa, pb, cmpctx.size < 4 ? cmpctx.size : 4);   /* the key is the first (up to) 4 bytes */
 }
 
 /* returns 0 if the function is unknown */
@@ -62,16 +124,19 @@ static int dispatch(const char *f) {
 }
 
 int main(int argc, char **argv) {
-    if (argc > 1) setlocale(LC_ALL, argv[1]);
+    if (argc > 1 && argv[1][0] != '-') setlocale(LC_ALL, argv[1]);
+    if (argc > 2 && argv[2][0] != '-') load_statics(argv[2]);
+    FILE *casef = argc > 3 ? fopen(argv[3], "r") : stdin;
     base = mmap((void *)BASE, STRIDE * MAXBLK, PROT_NONE, MAP_PRIVATE | MAP_ANONYMOUS | MAP_FIXED_NOREPLACE, -1, 0);
     if (base == MAP_FAILED) { base = mmap(0, STRIDE * MAXBLK, PROT_NONE, MAP_PRIVATE | MAP_ANONYMOUS, -1, 0); }
     if (base == MAP_FAILED) { perror("mmap"); return 2; }
-    printf("# base=%p\n", (void *)base);
+    res = fdopen(dup(1), "w");
+    fprintf(res, "# base=%p\n", (void *)base);
     struct sigaction sa; memset(&sa, 0, sizeof sa); sa.sa_sigaction = on_fault; sa.sa_flags = SA_SIGINFO | SA_NODEFER;
     sigaction(SIGSEGV, &sa, 0); sigaction(SIGBUS, &sa, 0); sigaction(SIGFPE, &sa, 0); sigaction(SIGABRT, &sa, 0); sigaction(SIGILL, &sa, 0);
     set_str_constraint_handler_s(str_handler); set_mem_constraint_handler_s(mem_handler);
     static char line[1 << 20]; static char id[64], func[64];
-    while (fgets(line, sizeof line, stdin)) {
+    while (fgets(line, sizeof line, casef)) {
         char *p = line; int n = 0;
         if (line[0] == '#' || line[0] == '\n') continue;
         if (sscanf(p, "%63s %63s %d%n", id, func, &nblk, &n) < 3) continue;
@@ -89,7 +154,7 @@ int main(int argc, char **argv) {
             for (size_t k = 0; k < sz; k++) blk[i].start[k] = (uint8_t)(hexval(hex[2 * k]) * 16 + hexval(hex[2 * k + 1]));
             /* bytes of the mapped pages outside the block: fixed filler (never compared) */
         }
-        sscanf(p, " %d%n", &nargs, &n); p += n;
+        sscanf(p, " %d%n", &nargs, &n); p += n; vstart = nargs;
         for (int i = 0; i < nargs; i++) {
             char tok[64]; sscanf(p, " %63s%n", tok, &n); p += n;
             args[i].tag = tok[0];
@@ -97,31 +162,36 @@ int main(int argc, char **argv) {
             else if (tok[0] == 'P') { int b; long off; sscanf(tok + 1, "%d:%ld", &b, &off); args[i].u = (uint64_t)(uintptr_t)(blk[b].start + off); }
             else if (tok[0] == 'I') args[i].u = strtoull(tok + 1, 0, 10);
             else if (tok[0] == 'S') args[i].u = (uint64_t)strtoll(tok + 1, 0, 10);
+            else if (tok[0] == 'F') { args[i].u = strtoull(tok + 1, 0, 16); memcpy(&args[i].d, &args[i].u, 8); }
+            else if (tok[0] == 'G') { args[i].L = strtold(tok + 1, 0); }
+            else if (tok[0] == 'V') { vstart = i + 1; }
         }
-        hn = 0; fault_sig = 0; errno = 0;
-        printf("%s ret=", id);
+        hn = 0; fault_sig = 0; errno = 0; have_cap = 0; caplen = 0; snap_statics();
+        OUT("%s ret=", id);
         if (!sigsetjmp(jb, 1)) {
-            if (!dispatch(func)) printf("UNKNOWN");
-        } else printf("FAULT");
-        printf(" h=");
-        if (hn == 0) printf("-");
-        for (int i = 0; i < hn && i < 64; i++) printf("%s%c:%d", i ? "," : "", hlog[i].kind, hlog[i].code);
-        printf(" fault=");
-        if (!fault_sig) printf("-");
+            if (!dispatch(func)) OUT("UNKNOWN");
+        } else OUT("FAULT");
+        OUT(" h=");
+        if (hn == 0) OUT("-");
+        for (int i = 0; i < hn && i < 64; i++) OUT("%s%c:%d", i ? "," : "", hlog[i].kind, hlog[i].code);
+        OUT(" fault=");
+        if (!fault_sig) OUT("-");
         else {
             int found = 0;
             for (int i = 0; i < nblk && !found; i++) {
                 uint8_t *reg = base + i * STRIDE;
-                if (fault_addr >= (uintptr_t)reg && fault_addr < (uintptr_t)reg + STRIDE) { printf("%d:%ld", i, (long)(fault_addr - (uintptr_t)blk[i].start)); found = 1; }
+                if (fault_addr >= (uintptr_t)reg && fault_addr < (uintptr_t)reg + STRIDE) { OUT("%d:%ld", i, (long)(fault_addr - (uintptr_t)blk[i].start)); found = 1; }
             }
-            if (!found) printf("?sig%d", fault_sig);
+            if (!found) OUT("?sig%d", fault_sig);
         }
+        diff_statics();
         for (int i = 0; i < nblk; i++) {
-            printf(" b%d=", i);
-            if (blk[i].size == 0) printf("-");
-            for (size_t k = 0; k < blk[i].size; k++) printf("%02x", blk[i].start[k]);
+            OUT(" b%d=", i);
+            if (blk[i].size == 0) OUT("-");
+            for (size_t k = 0; k < blk[i].size; k++) OUT("%02x", blk[i].start[k]);
         }
-        printf("\n"); fflush(stdout);
+        if (have_cap) { OUT(" out="); if (!caplen) OUT("-"); for (size_t k = 0; k < caplen; k++) OUT("%02x", (unsigned char)cap[k]); }
+        OUT("\n"); fflush(res);
     }
     return 0;
 }
